@@ -349,6 +349,17 @@ def plan(tier):
                       'slot reuse, skipping readers)' % len(FIXED), concrete=CONCRETE[3:]))
     for name, what, entries in DEFECT_UNITS:
         units.append(unit(name, fixed_vectors(entries, False), 'situation kept out of the enumerated units: ' + what))
+    # publisher thread against subscriber thread at lock-region granularity (harness/C16conc.cpp)
+    # (a batch publish on top of earlier items makes std::deque grow at the front inside the injected operation: those queries do not terminate within 15 min and are left out)
+    conc = [[m, cfg, n0, b, k] for m in (0, 1, 2) for cfg in (0, 1, 2) for n0 in (0, 1, 2) for b in (0, 1, 2, 3) for k in (0, 1, 2, 3) if not (b == 1 and n0 > 0)]
+    if tier == 'quick':
+        conc = [v for v in conc if (v[0] == 0 and v[1] != 1) or (v[0] == 0 and v[2] == 1) or (v[0] != 0 and (v[1] + v[2] + v[3]) % 3 == 1)]
+    units.append(dict(engine='e1', name='pub_conc', tu='C16conc.cpp', entry='h_pub_conc', unwind=12, vectors=conc, timeout=900,
+                      concrete=[([0, 0, 1, 0, 1], list(range(1, 9))), ([0, 1, 2, 2, 1], list(range(1, 9))), ([2, 2, 0, 1, 3], list(range(1, 9)))],
+                      space='mode x configuration {unlimited,(1,1),(2,1)} x caught-up subscriber after 0..2 consumed values x awaited next() with a publisher-thread operation '
+                            '{publish, publish batch (only on an empty stream), close, kick} injected in front of its k-th mutex acquisition (k = 1..4; beyond the last = after it parked), then two more polls',
+                      data='published values symbolic 64-bit, pairwise distinct', bounds='one subscriber operation overlapped by one publisher operation, interleaved at lock-region granularity',
+                      outside='three or more overlapping operations; pre-emption inside a critical section', cbmc_extra=('--max-field-sensitivity-array-size', '1024')))
     return units
 
 
